@@ -45,6 +45,14 @@ def _die(mode):
     if mode == 'kill':
         os.kill(os.getpid(), signal.SIGKILL)
         time.sleep(5)
+    elif mode == 'term':
+        # what kill(1), container runtimes and batch schedulers send
+        signal.signal(signal.SIGTERM, signal.SIG_DFL)
+        os.kill(os.getpid(), signal.SIGTERM)
+        time.sleep(5)
+    elif mode == 'sysexit':
+        import sys
+        sys.exit(7)
     elif mode == 'exit':
         os._exit(3)
     elif mode == 'raise':
